@@ -202,7 +202,10 @@ fn case(h: &H, idx: u64, kind: u64, rng: &mut Rng) {
                     continue;
                 }
                 let d = (ra[0] - rb[0]).hypot(ra[1] - rb[1]);
-                let mag = ra[0].hypot(ra[1]).max(1e-3 * inst.ell.a);
+                // omerc subtracts the distance u_c of the centre along the initial line (of the
+                // order of a): the rounding of its plane coordinates is that of numbers of size a
+                let floor = if projname == "omerc" { inst.ell.a } else { 1e-3 * inst.ell.a };
+                let mag = ra[0].hypot(ra[1]).max(floor);
                 // somerc: its asin steps are ill-conditioned far from the centre
                 let rel = if projname == "somerc" { 1.0e-10 } else { 1.0e-12 };
                 h.max(&format!("k_0: relative difference / {rel:e}"), d / mag / rel, || scaled.clone());
